@@ -1,5 +1,6 @@
 """C14 — R-tree intersection query equals brute force, and construction terminates."""
 import itertools
+import math
 
 from hypothesis import strategies as st
 
@@ -53,7 +54,10 @@ def tree_stats(index, depth=0):
     return nodes, deepest
 
 
-def body(ctx, case):
+def body(ctx, case, report=None, budget=None):
+    # report: what to put into a failure instead of the full box list (large generated sheets are described by
+    # their recipe); budget: line budget for this case
+    budget = budget or LINE_BUDGET
     boxes = [(i, tuple(b)) for i, b in case["boxes"]]
     queries = [tuple(q) for q in case["queries"]]
     classes = set(case.get("tags", []))
@@ -69,21 +73,21 @@ def body(ctx, case):
         cy = sum((b[1] / 2 + b[3] / 2) / n for _, b in boxes)
         if any(b[0] == cx or b[2] == cx or b[1] == cy or b[3] == cy for _, b in boxes):
             classes.add("box_on_split_line")
-    what = "rtree.Index(%r)" % (boxes,)
+    what = "rtree.Index(%r)" % (boxes,) if report is None else "rtree.Index(<sheet %r>)" % (report["sheet"],)
     try:
-        index, lines = sut.call_budget(rtree.Index, (list(boxes),), line_budget=LINE_BUDGET)
+        index, lines = sut.call_budget(rtree.Index, (list(boxes),), line_budget=budget)
     except BudgetExceeded:
         ctx.record(case, classes, False)
         ctx.fail("%s did not finish within %d executed lines (construction must terminate)"
-                 % (what, LINE_BUDGET), case, expensive=True)
+                 % (what, budget), report or case, expensive=True)
     except RecursionError:
         ctx.record(case, classes, False)
-        ctx.fail("%s raised RecursionError (construction must terminate)" % what, case)
+        ctx.fail("%s raised RecursionError (construction must terminate)" % what, report or case)
     except PropertyFailure:
         raise
     except Exception as exc:  # pylint: disable=broad-except
         ctx.record(case, classes, False)
-        ctx.fail("%s raised %s: %s" % (what, type(exc).__name__, exc), case)
+        ctx.fail("%s raised %s: %s" % (what, type(exc).__name__, exc), report or case)
     ctx.notes["max_construction_lines"] = max(ctx.notes.get("max_construction_lines", 0), lines)
     try:
         nodes, depth = tree_stats(index)
@@ -106,10 +110,15 @@ def body(ctx, case):
         if want and not any(strictly_overlaps(b, q) for i, b in boxes if i in want):
             qclasses.add("touching_only_hit")
         # a failure is reported with every query asked of this index so far (an index may remember earlier queries)
-        one = {"boxes": case["boxes"], "queries": [list(x) for x in queries[:k + 1]], "tags": case.get("tags", [])}
-        ctx.record({"boxes": case["boxes"], "queries": [list(q)]}, qclasses, nontrivial=n >= 2 and bool(want))
+        if report is not None:
+            one = dict(report, failing_query=list(q))
+            ctx.record({"sheet": report["sheet"], "queries": [list(q)]}, qclasses, nontrivial=bool(want))
+        else:
+            one = {"boxes": case["boxes"], "queries": [list(x) for x in queries[:k + 1]],
+                   "tags": case.get("tags", [])}
+            ctx.record({"boxes": case["boxes"], "queries": [list(q)]}, qclasses, nontrivial=n >= 2 and bool(want))
         try:
-            got, _ = sut.call_budget(index.intersection, (q,), line_budget=LINE_BUDGET)
+            got, _ = sut.call_budget(index.intersection, (q,), line_budget=budget)
         except BudgetExceeded:
             ctx.fail("%s.intersection(%r) did not finish within %d executed lines" % (what, q, LINE_BUDGET), one,
                      expensive=True)
@@ -353,7 +362,46 @@ def small_worlds():
                    "tags": ["small_world"]}
 
 
+def sheet(n, style):
+    """A full sheet of n short strokes / dots / small boxes, spread by an additive low-discrepancy sequence (no
+    random numbers): what a dense drawing hands to the index in one go."""
+    boxes = []
+    for i in range(n):
+        x = math.fmod(i * 0.6180339887498949, 1.0) * 1000.0
+        y = math.fmod(i * 0.7548776662466927, 1.0) * 1000.0
+        if style == "strokes":
+            w, h = (0.0, 1.5, 4.0)[i % 3], (4.0, 0.0, 1.5)[i % 3]
+        elif style == "dots":
+            w = h = 0.0
+        else:
+            w, h = 1.0 + (i % 7), 1.0 + (i % 5)
+        boxes.append([i, [x, y, x + w, y + h]])
+    return boxes
+
+
+def large_sheets():
+    for n, style in ((1500, "strokes"), (5000, "dots"), (8000, "strokes"), (12000, "boxes")):
+        yield {"sheet": [n, style], "tags": ["large_collection(>=1500)"]}
+
+
+def large_body(ctx, case):
+    """Thousands of boxes in one index (nodes that hold more than a thousand boxes on the way down): every 40th box
+    is asked for at its own corner, plus strips along the sheet's edges and a few windows."""
+    n, style = case["sheet"]
+    boxes = sheet(n, style)
+    queries = []
+    for k in range(0, n, 40):
+        b = boxes[k][1]
+        queries.append([b[0], b[1], b[0], b[1]])
+    queries += [[0, 0, 0.5, 1000], [0, 0, 1000, 0.5], [999.5, 0, 1004, 1004], [0, 999.5, 1004, 1004],
+                [250, 250, 260, 260], [499.9, 0, 500.1, 1000], [-5, -5, -1, -1]]
+    body(ctx, {"boxes": boxes, "queries": queries, "tags": case["tags"]}, report=case, budget=40 * LINE_BUDGET)
+
+
 def run(ctx):
+    ctx.exhaustive("large_sheets", large_sheets(), large_body,
+                   "4 sheets of 1500 .. 12000 strokes / dots / boxes, each box's own corner (every 40th) + 7 strips "
+                   "and windows, against brute force")
     ctx.exhaustive("small_worlds", small_worlds(), body,
                    "every multiset of <= 3 boxes from 24 lattice boxes on {0,1,2}^2 x 48 lattice queries")
     ctx.given("generated", layouts(), body, quick=2500, thorough=300000)
@@ -363,4 +411,7 @@ def run(ctx):
 
 
 def replay(ctx, part, case):
+    if "sheet" in case:
+        large_body(ctx, case)
+        return
     body(ctx, case)
